@@ -30,9 +30,12 @@ import (
 	"context"
 	"encoding/binary"
 	"fmt"
+	"io"
+	"math/big"
 	"os"
 	"sort"
 	"strings"
+	"sync"
 	"time"
 
 	quic "github.com/refraction-networking/uquic"
@@ -1687,6 +1690,228 @@ func udRetx(o *udOut, r *u.Rng, scripted bool) {
 }
 
 
+// ---- handler registration across dials on ONE transport (case Reg) -------------------------
+
+func udRegID(b []byte) string { // connection ID as a number: 0 = empty, else 0x01 || bytes
+	if len(b) == 0 {
+		return "0"
+	}
+	n := new(big.Int).SetBytes(append([]byte{1}, b...))
+	return n.String()
+}
+
+// udReg: ONE UTransport, several dials through the real doDial against the in-tree server, each
+// followed by a close (local CONNECTION_CLOSE, remote CONNECTION_CLOSE, or immediate destroy) and
+// pauses shorter than any expiry (5 ms) or longer than all of them (2 s); after every step the
+// Transport's handler map is read for every source connection ID used so far.
+func udReg(o *udOut, r *u.Rng, scripted bool) {
+	name := parrotNames[r.Intn(len(parrotNames))]
+	if scripted {
+		name = "Chrome_115_IPv4"
+	}
+	sp, err := specFor(name)
+	if err != nil {
+		return
+	}
+	// Zero-length source connection IDs only (the Chrome parrots as they are, the Firefox ones
+	// edited): every dial then uses the SAME handler-map key, which is what the model is about.
+	// With a non-empty ID each dial has its own key, and the connection retires its first ID
+	// on its own schedule while it lives.
+	sp.InitialPacketSpec.SrcConnIDLength = 0
+	k := "udial/reg/"
+	var steps []string
+	var hist []string
+	berr := inBubble(func() {
+		e, err := newSimEnv(simOpts{Spec: sp})
+		if err != nil {
+			o.fail(k+"env", err.Error(), name)
+			return
+		}
+		defer e.Close()
+		sctx, scancel := context.WithCancel(context.Background())
+		defer scancel()
+		var smu sync.Mutex
+		var srvConns []*quic.Conn
+		go func() {
+			for {
+				c, err := e.Ln.Accept(sctx)
+				if err != nil {
+					return
+				}
+				smu.Lock()
+				srvConns = append(srvConns, c)
+				smu.Unlock()
+				go func(c *quic.Conn) {
+					for {
+						st, err := c.AcceptStream(sctx)
+						if err != nil {
+							return
+						}
+						go func() {
+							data, err := io.ReadAll(st)
+							if err == nil {
+								_, _ = st.Write(data)
+							}
+							st.Close()
+						}()
+					}
+				}(c)
+			}
+		}()
+		var ids [][]byte
+		var conns []*quic.Conn
+		observe := func() string {
+			var obs []string
+			for _, id := range ids {
+				kind, c := quic.UdialHandlerKind(e.CliTr, id)
+				owner := int64(0)
+				switch kind {
+				case 1:
+					for j, cc := range conns {
+						if cc == c {
+							owner = int64(j + 1)
+						}
+					}
+				case 2, 3:
+					kind = 2
+				}
+				obs = append(obs, u.Pair(udRegID(id), u.Z(int64(kind)), u.Z(owner)))
+			}
+			return u.List(obs)
+		}
+		step := func(op string) { steps = append(steps, u.App("GStep", op, observe())) }
+		nd := r.Range(2, 5)
+		if scripted {
+			nd = 3
+		}
+		for d := 1; d <= nd; d++ {
+			e.Router.mu.Lock()
+			from := len(e.Router.log)
+			e.Router.mu.Unlock()
+			ctx, cancel := context.WithTimeout(context.Background(), 20*time.Second)
+			conn, derr := e.Dial(ctx)
+			ok := derr == nil
+			if ok {
+				// the server's replies reach this connection: a small echo
+				st, err := conn.OpenStreamSync(ctx)
+				if err == nil {
+					_ = st.SetDeadline(time.Now().Add(20 * time.Second))
+					msg := streamBytes(d, 3000)
+					_, _ = st.Write(msg)
+					st.Close()
+					got, rerr := io.ReadAll(st)
+					ok = rerr == nil && bytes.Equal(got, msg)
+				} else {
+					ok = false
+				}
+			}
+			cancel()
+			var id []byte
+			e.Router.mu.Lock()
+			for _, dg := range e.Router.log[from:] {
+				if dg.Dir == 0 {
+					if pk, err := udOpen([][]byte{dg.Data}); err == nil && len(pk) > 0 {
+						id = pk[0].SCID
+					}
+					break
+				}
+			}
+			e.Router.mu.Unlock()
+			known := false
+			for _, x := range ids {
+				if bytes.Equal(x, id) {
+					known = true
+				}
+			}
+			if !known {
+				ids = append(ids, id)
+			}
+			conns = append(conns, conn)
+			hist = append(hist, fmt.Sprintf("dial#%d scid=%x ok=%v", d, id, ok))
+			if !ok {
+				o.fail(k+"not-routed", fmt.Sprintf("dial#%d through the same UTransport: the handshake or the echo fails (%v): the connection is not registered under its source connection ID, or loses the entry", d, derr), name+": "+strings.Join(hist, "; "))
+			}
+			step(u.App("GDial", u.Z(int64(d)), udRegID(id), u.B(ok)))
+			if kind, c := quic.UdialHandlerKind(e.CliTr, id); ok && (kind != 1 || c != conn) {
+				o.fail(k+"not-owner", fmt.Sprintf("after dial#%d the handler map does not hold that connection under its source connection ID (kind %d)", d, kind), name+": "+strings.Join(hist, "; "))
+			}
+			if conn == nil {
+				continue
+			}
+			// the connection lives for a while: timers of earlier connections fire under it
+			switch w := r.Intn(3); {
+			case scripted && d == 2, !scripted && w == 0:
+				time.Sleep(2 * time.Second)
+				hist = append(hist, "pause 2s (connection open)")
+				step("GWaitLong")
+				if kind, c := quic.UdialHandlerKind(e.CliTr, id); ok && (kind != 1 || c != conn) {
+					o.fail(k+"not-owner", fmt.Sprintf("2 s after dial#%d, connection still open: the handler map no longer holds it under its source connection ID (kind %d): an earlier connection's expiry removed the entry", d, kind), name+": "+strings.Join(hist, "; "))
+				}
+			case !scripted && w == 1:
+				time.Sleep(5 * time.Millisecond)
+				step("GWaitShort")
+			}
+			how := r.Intn(3)
+			if scripted {
+				how = 0
+			}
+			switch how {
+			case 0:
+				conn.CloseWithError(0, "")
+				time.Sleep(time.Millisecond)
+				hist = append(hist, fmt.Sprintf("close#%d local", d))
+				step(u.App("GClose", u.Z(int64(d)), udRegID(id)))
+			case 1:
+				smu.Lock()
+				var sc *quic.Conn
+				if len(srvConns) >= d {
+					sc = srvConns[d-1]
+				}
+				smu.Unlock()
+				if sc != nil {
+					sc.CloseWithError(7, "bye")
+				}
+				select {
+				case <-conn.Context().Done():
+				case <-time.After(time.Second):
+				}
+				time.Sleep(time.Millisecond)
+				hist = append(hist, fmt.Sprintf("close#%d remote", d))
+				step(u.App("GClose", u.Z(int64(d)), udRegID(id)))
+			default:
+				quic.UdialDestroy(conn, fmt.Errorf("verif: destroyed"))
+				time.Sleep(time.Millisecond)
+				hist = append(hist, fmt.Sprintf("destroy#%d", d))
+				step(u.App("GDestroy", u.Z(int64(d)), udRegID(id)))
+			}
+			switch w := r.Intn(4); {
+			case !scripted && w == 0:
+				time.Sleep(2 * time.Second)
+				hist = append(hist, "pause 2s")
+				step("GWaitLong")
+			case !scripted && w == 1:
+				time.Sleep(5 * time.Millisecond)
+				hist = append(hist, "pause 5ms")
+				step("GWaitShort")
+			}
+		}
+		time.Sleep(2 * time.Second)
+		step("GWaitLong")
+		for _, id := range ids {
+			if kind, _ := quic.UdialHandlerKind(e.CliTr, id); kind != 0 {
+				o.fail(k+"leak", fmt.Sprintf("2 s after the last connection was closed the handler map still holds an entry (kind %d) under source connection ID %x", kind, id), name+": "+strings.Join(hist, "; "))
+			}
+		}
+	})
+	if berr != nil {
+		o.fail(k+"leak-or-panic", berr.Error(), name+": "+strings.Join(hist, "; "))
+		return
+	}
+	o.dist["reg"]++
+	fmt.Fprintf(o.w, "CASE 1 %s\n", u.App("Reg", u.List(steps)))
+}
+
+
 // udKeyPhases: the spec-driven crypto setup answers every sealer / opener getter with the same
 // class (keys / not yet available / dropped) as the plain one, whichever keys are installed.
 func udKeyPhases(o *udOut) {
@@ -1720,6 +1945,8 @@ func runUDial(w *bufio.Writer, seed uint64, n int, args []string) {
 		switch {
 		case i%8 == 7 && only == "":
 			udNilSpec(o, rr)
+		case i%8 == 3 && (i/8)%2 == 0 && only == "":
+			udReg(o, rr, i == 3)
 		case i%4 == 1 && only == "":
 			udRetx(o, rr, i == 1)
 			o.dist["retx"]++
